@@ -122,6 +122,8 @@ type pcRun struct {
 	deadlocked chan struct{}
 	prodDone   int32
 	prodErrs   int64
+	hold       chan struct{} // closed when the consumer may start (late consumer cases)
+	holdOnce   sync.Once
 }
 
 func (p *pcRun) violate(rule, sig, format string, args ...interface{}) {
@@ -169,6 +171,7 @@ func (p *pcRun) producer(r *core.Rand, wg *sync.WaitGroup, evs map[string]int64)
 	defer wg.Done()
 	defer p.guard("producer")
 	defer atomic.StoreInt32(&p.prodDone, 1)
+	defer p.release()
 	atomic.StoreInt64(&p.prodGID, gid())
 	w, err := p.q.Writer()
 	if err != nil {
@@ -194,6 +197,7 @@ func (p *pcRun) producer(r *core.Rand, wg *sync.WaitGroup, evs map[string]int64)
 				// file full: wait for the consumer (bounded number of yields per try)
 				atomic.AddInt64(&p.prodErrs, 1)
 				atomic.AddInt64(&p.progress[0], 1)
+				p.release()
 				for i := 0; i < 200; i++ {
 					runtime.Gosched()
 				}
@@ -246,9 +250,19 @@ func (p *pcRun) producer(r *core.Rand, wg *sync.WaitGroup, evs map[string]int64)
 	retry(func() error { return w.Flush() }, "flush")
 }
 
+// release lets a held consumer start.
+func (p *pcRun) release() {
+	if p.hold != nil {
+		p.holdOnce.Do(func() { close(p.hold) })
+	}
+}
+
 func (p *pcRun) consumer(r *core.Rand, wg *sync.WaitGroup, evs map[string]int64, got *int) {
 	defer wg.Done()
 	defer p.guard("consumer")
+	if p.hold != nil {
+		<-p.hold
+	}
 	atomic.StoreInt64(&p.consGID, gid())
 	rd := p.q.Reader()
 	note := func(ev string) {
@@ -431,8 +445,17 @@ func runProdConsCase(c *core.Case) *core.Result {
 	ps := []int{1024, 1024, 4096}[r.Intn(3)]
 	fc := filecheck.Config{PageSize: uint32(ps), DiskCap: 16 << 20, SyncMode: r.Intn(3)}
 	bounded := r.Chance(1, 2)
+	// every 8th case: small bounded file and a consumer that only starts once
+	// the producer ran into the full condition (or finished)
+	lateConsumer := c.Idx%8 == 1
+	if lateConsumer {
+		bounded = true
+	}
 	if bounded {
 		pages := 64*1024/ps + []int{48, 96, 200}[r.Intn(3)]
+		if lateConsumer {
+			pages = 64*1024/ps + 48
+		}
 		if pages < 96 {
 			pages = 96
 		}
@@ -445,9 +468,16 @@ func runProdConsCase(c *core.Case) *core.Result {
 	if c.Tier == "thorough" {
 		n = 500 + r.Intn(2500)
 	}
+	if lateConsumer && n < 400 {
+		n += 250
+	}
 	p := &pcRun{res: res, cfg: cfg, seed: c.Seed*1000003 + int64(c.Idx), ps: ps, n: n, perturb: r.Chance(2, 3), deadlocked: make(chan struct{})}
 	p.prodPoint.Store("idle")
 	p.consPoint.Store("idle")
+	if lateConsumer {
+		p.hold = make(chan struct{})
+		res.Add("late_consumer_cases", 1)
+	}
 	p.disk = simdisk.New("simdisk", fc.DiskCap)
 	p.disk.SetRecording(false)
 
